@@ -1,6 +1,7 @@
 pub mod adaptive;
 pub mod bulkhead;
 pub mod c13;
+pub mod c20;
 pub mod cache;
 pub mod chaos;
 pub mod circuit;
@@ -18,7 +19,7 @@ pub mod timelimiter;
 use crate::driver::Prop;
 
 pub fn all() -> Vec<Box<dyn Prop>> {
-    vec![Box::new(bulkhead::C01), Box::new(bulkhead::C07), Box::new(timelimiter::C06), Box::new(retry::C05), Box::new(hedge::C12), Box::new(coalesce::C11), Box::new(ratelimiter::C02), Box::new(ratelimiter::C15), Box::new(circuit::C03), Box::new(circuit::C04), Box::new(circuit::C09), Box::new(cache::C10), Box::new(threads::C08), Box::new(c13::C13), Box::new(reconnect::C14), Box::new(reconnect::C16), Box::new(fallback::C17), Box::new(healthcheck::C18), Box::new(chaos::C19)]
+    vec![Box::new(bulkhead::C01), Box::new(bulkhead::C07), Box::new(timelimiter::C06), Box::new(retry::C05), Box::new(hedge::C12), Box::new(coalesce::C11), Box::new(ratelimiter::C02), Box::new(ratelimiter::C15), Box::new(circuit::C03), Box::new(circuit::C04), Box::new(circuit::C09), Box::new(cache::C10), Box::new(threads::C08), Box::new(c13::C13), Box::new(reconnect::C14), Box::new(reconnect::C16), Box::new(fallback::C17), Box::new(healthcheck::C18), Box::new(chaos::C19), Box::new(c20::C20)]
 }
 
 pub fn by_id(id: &str) -> Option<Box<dyn Prop>> {
